@@ -821,3 +821,48 @@ pub fn fill_screen_mode(cols: usize, rows: usize, mode: usize) -> String {
         }
     }
 }
+
+/// sizes beyond every narrow-integer boundary (255/256 columns or rows), plus typical large terminals
+pub fn large_size(src: &mut Src) -> (usize, usize) {
+    match src.below(8) {
+        0 => (132, 50),
+        1 => (300, 60),
+        2 => (256, 4),
+        3 => (257, 3),
+        4 => (1000, 2),
+        5 => (3, 300),
+        6 => (80, 257),
+        _ => (src.range(200, 400), src.range(2, 40)),
+    }
+}
+
+/// structured history on a large screen followed by a burst from the given categories;
+/// numeric arguments use the same edge classes, so columns/rows/counts beyond 255 occur
+pub fn large_case(src: &mut Src, alt: bool, burst: &[(usize, usize)], burst_frags: usize) -> Case {
+    let (cols, rows) = large_size(src);
+    let mut g = G::new(cols, rows);
+    g.alt = alt;
+    g.ris = false;
+    let mut case = Case::new(cols, rows, None);
+    let n = src.range(1, 4);
+    case.calls = history(src, &mut g, n, 10, 0, 0, false);
+    // history() resizes towards small sizes; keep the burst aware of the current size
+    let mut gb = G::new(g.cols, g.rows);
+    gb.alt = alt;
+    gb.ris = false;
+    gb.w = [0; NCAT];
+    for (cat, w) in burst {
+        gb.w[*cat] = *w;
+    }
+    // long runs of text so that wide rows actually fill and wrap
+    let mut s = String::new();
+    if src.chance(1, 2) {
+        let n = src.range(1, 3) * gb.cols + src.range(0, 3);
+        for k in 0..n {
+            s.push((b'a' + (k % 26) as u8) as char);
+        }
+    }
+    s.push_str(&input(src, &gb, burst_frags));
+    case.calls.push(Call::FeedStr(s));
+    case
+}
